@@ -471,12 +471,13 @@ def main(run):
     for ctxt, mode, dgh, info in tamper_jobs:
         for tag, var, must in G.structured_variants(bytes.fromhex(dgh), mode[0] == "req"):
             sv.append((" ".join(["oscun"] + ctxt + mode + [var.hex()]), tag, must, dgh))
-    sv = sv[:2500] if quick else sv[:6000]
+    if len(sv) > (4000 if quick else 12000):
+        sv = r.sample(sv, 4000 if quick else 12000)
     sm, sc, _ = tie.run_both(model, drv, [v[0] for v in sv], timeout=3000)
     n_sv_bad = 0
     for k, (ln, tag, must, dgh) in enumerate(sv):
         run.cov["evaluations"] += 1
-        run.hist("structured_option_change", "%s:%s" % (tag, sc[k].split(" ")[0]))
+        run.hist("structured_option_change", "%s:%s" % (re.sub(r"\d+$", "", tag), sc[k].split(" ")[0]))
         if must and sc[k].startswith("OK"):
             n_sv_bad += 1
             if n_sv_bad <= 3:
